@@ -37,6 +37,14 @@ the spectrum: it is a circular convolution whose kernel depends on the index dif
 theorem saturation_rotates (bp : BrkP ℝ) (θ0 : ℝ) (k : Fin N) (sat : Fin N → ℝ) :
     bandRow bp θ0 (rotE k sat) = rotE k (bandRow bp θ0 sat) := bandRow_rot bp θ0 k sat
 
+/-- … and the model's list form of one frequency row is that function -/
+theorem saturation_model_row (bp : BrkP ℝ) (θ0 cg k : ℝ) (E : Fin N → ℝ) (om df : List ℝ) :
+    bandSaturationRow rfloor bp
+      { omega := om, theta := List.ofFn fun j : Fin N => deg2rad (theta θ0 j), df := df, dth := List.ofFn fun _ : Fin N => dθ N }
+      (List.ofFn E) cg k
+      = List.ofFn (bandRow bp θ0 (fun j => E j * cg * (k * k * k) / Solv.two / Transc.pi)) :=
+  band_row_bridge bp θ0 cg k E om df
+
 /-- the cumulative-breaking strength (wave-speed vector differences) rotates with the exceedance
 field, for every pair of frequencies -/
 theorem cumulative_strength_rotates (θ0 c c' w : ℝ) (k : Fin N) (X : Fin N → ℝ) :
